@@ -469,7 +469,7 @@ def shrink(f):
 
     def still(c):
         for x in check_reflexive(c, argv, runner.Stats(), "shrink"):
-            if x.kind == f.kind:
+            if x.bucket == f.bucket:
                 return x
         return None
     return shrink_block(instrs, still, budget_s=15) or f
